@@ -44,6 +44,11 @@ Mapping (Go → model):
   `rfault` (`ReadAt` fails).
 * Go panics (nil `f.file` after the last reference is gone, "Invalid reference
   count", …) → `panicked`.
+* `checked = true` is the code as it is now (fix 17054c0): `VirtualWrite`,
+  `VirtualAllocate` and `VirtualSetAttributes` with a size return `StatusErrStale` when
+  `referenceCount == 0` after the `lockMutatingData` wait, like `VirtualOpenSelf` with
+  `Truncate` always did.  `checked = false` is the code before that fix (kept for the
+  counterexample `C16.resumed_size_change_hits_released_file`).
 
 The computation of the digest (several `ReadAt`s of the frozen file, each under
 the lock, then storing `cachedDigest`) is one model step; only steps that do not
@@ -108,6 +113,7 @@ def PC.isFrozen : PC → Bool
   | _ => false
 
 structure State where
+  checked : Bool
   layered : Bool
   bytes : Bytes
   exec : Bool
@@ -136,9 +142,9 @@ def acquire (s : State) (m : Mask) : State :=
 
 /-- State right after `NewFile(holeSource, isExecutable, size, shareAccess)` succeeded
 (and, when `layered`, `AsLinkableLeaf` wrapped it with link count 1). -/
-def init (layered exec : Bool) (size : Nat) (m : Mask) : State :=
+def init (checked layered exec : Bool) (size : Nat) (m : Mask) : State :=
   acquire
-    { layered := layered, bytes := List.replicate size 0, exec := exec, refs := 1, writers := 0,
+    { checked := checked, layered := layered, bytes := List.replicate size 0, exec := exec, refs := 1, writers := 0,
       frozen := 0, cached := none, changeID := 0, closed := false, closeCalls := 0,
       panicked := false, linkCount := 1, rd := 0, wr := 0, wfault := 0, tfault := false,
       rfault := false, fired := fun _ => false, pc := fun _ => .idle, cas := [] } m
@@ -202,7 +208,8 @@ def writeCount (wfault len : Nat) : Nat :=
 /-- Body of a mutating call, lock held and `frozen = 0`. -/
 def perform (s : State) : MutOp → State × Out
   | .write off data =>
-    if s.closed then (s.panic, .panic)
+    if s.checked ∧ s.refs = 0 then (s, .wrote 0 .stale)
+    else if s.closed then (s.panic, .panic)
     else
       let n := writeCount s.wfault data.length
       let s1 : State :=
@@ -212,11 +219,14 @@ def perform (s : State) : MutOp → State × Out
         else s
       (s1, .wrote n (if s.wfault = 0 then .ok else .io))
   | .alloc off len =>
-    if s.bytes.length < off + len then
+    if s.checked ∧ s.refs = 0 then (s, .st .stale)
+    else if s.bytes.length < off + len then
       let r := truncate s (off + len)
       (r.1, if r.1.panicked then .panic else if r.2 then .st .ok else .st .io)
     else (s, .st .ok)
   | .setattr size ex =>
+    if s.checked ∧ s.refs = 0 then (s, .st .stale)
+    else
     let r := truncate s size
     if r.1.panicked then (r.1, .panic)
     else if r.2 then
@@ -415,36 +425,37 @@ def MutOp.needsDescriptor : MutOp → Bool
   | .alloc _ _ => true
   | _ => false
 
+/-- What the code before fix 17054c0 needed from the caller of a mutating call at the
+moment the change is performed. -/
+def mutContract (s : State) (op : MutOp) : Bool :=
+  if op.needsDescriptor then decide (s.rd + s.wr > 0)
+  else match op with
+    | .setattr _ _ => decide (s.rd + s.wr > 0 ∨ s.linkCount > 0)
+    | _ => true
+
 /-- The caller contract under which the file is used (DESIGN C16): a directory entry is
 only removed if there is one; `VirtualClose` releases share access that is held (at least one
-bit); read/seek/write/allocate are only performed with an open descriptor; a size change by
-path is only performed on a file that still has a directory entry or a descriptor.
-For calls that waited in `lockMutatingData` the condition is on the segment that performs
-the change. -/
+bit); read/seek are only performed with an open descriptor.  The mutating calls need nothing
+from the caller in the current code (`checked`); before the fix write/allocate needed an open
+descriptor and a size change by path a directory entry or a descriptor at the moment the
+change is performed (`mutContract`), which the caller of a parked call cannot guarantee. -/
 def legal (s : State) : Op → Bool
   | .unlink => decide (s.linkCount > 0)
   | .close m => decide (m.count ≥ 1 ∧ b2n m.r ≤ s.rd ∧ b2n m.w ≤ s.wr)
   | .read _ _ => decide (s.rd + s.wr > 0)
   | .seek _ => decide (s.rd + s.wr > 0)
-  | .mbegin _ op =>
-    if op.needsDescriptor then decide (s.rd + s.wr > 0)
-    else match op with
-      | .setattr _ _ => decide (s.rd + s.wr > 0 ∨ s.linkCount > 0)
-      | _ => true
+  | .mbegin _ op => s.checked || mutContract s op
   | .mwake t =>
     match s.pc t with
-    | .mutWait op _ =>
-      if op.needsDescriptor then decide (s.rd + s.wr > 0)
-      else match op with
-        | .setattr _ _ => decide (s.rd + s.wr > 0 ∨ s.linkCount > 0)
-        | _ => true
+    | .mutWait op _ => s.checked || mutContract s op
     | _ => true
   | _ => true
 
 /-- States reachable by enabled steps that respect the caller contract: all
 histories and all interleavings of any number of threads. -/
 inductive Reachable : State → Prop
-  | init (layered exec : Bool) (size : Nat) (m : Mask) : Reachable (init layered exec size m)
+  | init (checked layered exec : Bool) (size : Nat) (m : Mask) :
+      Reachable (init checked layered exec size m)
   | step {s s' : State} {o : Out} (op : Op) :
       Reachable s → legal s op = true → step s op = some (s', o) → Reachable s'
 
